@@ -1,3 +1,4 @@
+import PW.Proofs.NoSignalN
 import PW.Props.C01
 import PW.Proofs.SpecLemmas
 import PW.Proofs.Grid
@@ -71,6 +72,19 @@ theorem envelope_povm_strings_are_generated_plans :
         = canon (PW.Props.Strings.permuteAxes (applyOperatorMatrix 2 [0]) 1 [0, 2, 1, 3]) :=
   ⟨PW.Props.Strings.envelope_povm_two_member_string, PW.Props.Strings.envelope_povm_one_member_string⟩
 
+/-- **the weights of a complete generalised measurement add up to the trace, in a space of any number of
+subsystems**: for operators `M_m` on the subsystem at position `q` with `Σ_m M_m†M_m = 1` (below the
+cutoff), `Σ_m Tr((M_m ⊗ 1) ρ (M_m ⊗ 1)†) = Tr ρ` — the vector handed to the sampler is a distribution for
+every joint state. -/
+theorem povm_weights_complete_any_number_of_subsystems {R : Type} [CommRing R] [StarRing R]
+    (dims : List Nat) (q : Nat) (hq : q < dims.length) (Ms : List (PW.Tensor R))
+    (hM : ∀ j < PW.Spec.dimOf2 dims q, ∀ k < PW.Spec.dimOf2 dims q,
+      (Ms.map fun U => ∑ i ∈ Finset.range (PW.Spec.dimOf2 dims q), U [i, j] * PW.conj (U [i, k])).sum
+        = if j = k then 1 else 0)
+    (ρ : PW.Tensor R) :
+    (Ms.map fun M => PW.Spec.trace dims (PW.Spec.applyOn dims [q] M ρ)).sum = PW.Spec.trace dims ρ :=
+  PW.Spec.povm_weights_sum_single dims q hq Ms hM ρ
+
 end PW.Props.C09
 
 #print axioms PW.Props.C09.povm_post_state_plan
@@ -80,3 +94,4 @@ end PW.Props.C09
 #print axioms PW.Props.C09.povm_weight_nonnegative
 #print axioms PW.Props.C09.projective_element_collapses
 #print axioms PW.Props.C09.envelope_povm_strings_are_generated_plans
+#print axioms PW.Props.C09.povm_weights_complete_any_number_of_subsystems
